@@ -83,6 +83,12 @@ func zzLens(set, p int) []int {
 // with the same deadline, metadata.Exptime = that deadline.
 func zzStore(mc *model.MC, key []byte, v []byte, flags uint32, tok []byte, deadline int64) {
 	data, full := chunkSize(len(key))
+	if zzForeignLayout != 0 {
+		// an item written with another chunk geometry (another client / build): readable, since
+		// the metadata says how it is laid out
+		data = uint32(int(data) + zzForeignLayout)
+		full = data + tokenSize
+	}
 	p := int(data)
 	n := (len(v) + p - 1) / p
 	md := make([]byte, metadataSize)
@@ -105,6 +111,10 @@ func zzStore(mc *model.MC, key []byte, v []byte, flags uint32, tok []byte, deadl
 		mc.Put(string(key)+"-"+zzItoa(i), true, c, flags, deadline)
 	}
 }
+
+// zzForeignLayout != 0: pre-stored items use a chunk payload that differs by this many bytes
+// from the handler's own geometry.
+var zzForeignLayout int
 
 type zzDecoded struct {
 	wellFormed bool // metadata live => every chunk live, full size, same token
@@ -363,7 +373,9 @@ func ZZChunkedStep() {
 	kl := rt.Param("keylen", 5)
 	nkeys := rt.Param("nkeys", 1)
 	lenset := rt.Param("lenset", 0)
+	zzForeignLayout = rt.Param("foreign", 0)
 	w := zzNewWorld(kl, nkeys, lenset)
+	zzForeignLayout = 0
 	data, _ := chunkSize(kl)
 	lens := zzLens(rt.Param("cmdlenset", lenset), int(data))
 	var kind int
